@@ -415,6 +415,23 @@ func runC13(c *Ctx, roots []*ssa.Function, sources map[*types.Var]bool) *taintCt
 		}
 		walk(root)
 	}
+	// package-level state reached in any other way (copy/append into a package-level buffer, a
+	// package-level sync.Pool or cache handed to library code, memory reached through a slice
+	// of a package-level array): the shared-state scan of shared.go over the same roots
+	_, n, fs := sharedStateScan(c, roots)
+	t.nsites += n
+	for _, f := range fs {
+		dup := false
+		for _, old := range t.findings {
+			if old.fn == f.fn && old.pos == f.pos {
+				dup = true
+			}
+		}
+		if !dup {
+			t.add(f.fn, "R13.2", f.what+" (state shared between decodes)", f.pos, f.sig)
+			t.funcs[f.fn] = true
+		}
+	}
 	return t
 }
 
